@@ -38,3 +38,9 @@ def wf_containers(self: Ref['mqtt.client.pubsubs.MQTTProtocol']) -> bool:
 def wf_proto(self: Ref['mqtt.client.pubsubs.MQTTProtocol']) -> bool:
     return (wf_base(self) and wf_containers(self) and is_num(self._bandwith) and num(self._bandwith) > 0
             and is_num(self._factor) and num(self._factor) > 0)
+
+
+# C19: protocol code reaches the factory's per-address tables only through self.factory.<table>[self.addr]
+ACCESS_POLICY = {'class': 'mqtt.client.base.MQTTBaseProtocol', 'key': 'addr', 'props': ['C19'],
+                 'tables': ['queuePublishTx', 'windowPublish', 'windowPubRelease', 'windowPubRx', 'windowSubscribe',
+                            'windowUnsubscribe']}
